@@ -8,9 +8,15 @@ ID=${1:?property id}
 MODE=${2:-quick}
 cmp -s /repo/go.sum harness/go.sum || cp /repo/go.sum harness/go.sum
 # the checker binary is rebuilt on every call with the hook guard (-tags verif) enabled; it links the packages of /repo's
-# working tree (replace directive), so library-level checks always see current sources
-(cd harness && go build -tags verif -o bin/vcheck ./cmd/vcheck) || { echo "INFRA build failed" >&2; exit 2; }
+# working tree (replace directive), so library-level checks always see current sources. Every call builds and runs its
+# own copy, so checks of different properties can run side by side.
+BIN=harness/bin/vcheck.$$
+trap 'rm -f "$BIN"' EXIT
+(cd harness && go build -tags verif -o "bin/vcheck.$$" ./cmd/vcheck) || { echo "INFRA build failed" >&2; exit 2; }
+cp -f "$BIN" harness/bin/vcheck 2>/dev/null || true
 if [ "$MODE" = "--replay" ]; then
-  exec harness/bin/vcheck -p "$ID" -replay "${3:?replay file}"
+  "$BIN" -p "$ID" -replay "${3:?replay file}"
+  exit $?
 fi
-exec harness/bin/vcheck -p "$ID" -tier "$MODE" -seed "${VERIF_SEED:-1}"
+"$BIN" -p "$ID" -tier "$MODE" -seed "${VERIF_SEED:-1}"
+exit $?
